@@ -7,7 +7,7 @@ RECURSIVE Strings(_, _)
 Strings(A, n) == IF n = 0 THEN {<<>>} ELSE Strings(A, n - 1) \cup {Append(s, c) : s \in {q \in Strings(A, n - 1) : Len(q) = n - 1}, c \in A}
 EscAlpha == {LT, GT, AMP, QUOT, APOS, SEMI, HASH, 97, 108, 116, 109, 112, SP, EACUTE, 51, 57, 113, 117, 111, 103}
 EscAlphaCore == {LT, GT, AMP, QUOT, APOS, SEMI, HASH, 97, 108, 116, 109, 112, SP, EACUTE}
-UrlAlpha == {PCT, PLUS, 50, 70, 102, SP, 47, EACUTE, EMOJI, 65533}     \* U+FFFD is a character like any other
+UrlAlpha == {PCT, PLUS, 50, 70, 102, SP, 47, EACUTE, EMOJI, 65533, 126, 45, 95, 46}     \* U+FFFD is a character like any other
 TagAlpha == {LT, GT, 33, 45, 47, 115, 99, 114, 105, 112, 116, 97}
 \* token-level inputs reach the script / style / comment passes
 Tokens == {ScriptO, ScriptC, StyleO, StyleC, CommO, CommC, <<LT>>, <<GT>>, <<97>>, <<LF>>, <<60, 83, 67, 82, 73, 80, 84>>,
